@@ -444,7 +444,49 @@ let explore cap u maxstates depth prefix =
     Printf.eprintf "EXPLORE cap=%d keys=%d states=%d transitions=%d longest_path=%d closed=%b\n"
       cap u !nstates !nh !maxh (not !truncated)
 
+(* --explore-arena N: every CompactArena state (allocation mask and free-list order; stored items
+   ignored) with at most N slots, reachable from the empty arena; one history per (state, call) with
+   the three release variants on every in-range, just-out-of-range and null handle, allocate, clear and
+   compact, followed by a read-only probe of every handle and every counter. *)
+let explore_arena n =
+  let ident (a : z arena) = s_mask a.mask ^ "|" ^ s_free a.free in
+  let seen = Hashtbl.create 4096 in
+  let q = Queue.create () in
+  Hashtbl.add seen (ident a_new) (); Queue.add (a_new, [], 1) q;
+  let nh = ref 0 and nstates = ref 1 and maxh = ref 0 in
+  let handles = List.init (n + 2) (fun i -> i) @ [null_id] in
+  let probes = String.concat "" (List.map (fun h -> Printf.sprintf "A get %d\nA has %d\n" h h) handles)
+               ^ "A len\nA ac\nA empty\nA fc\nA stats\n" in
+  while not (Queue.is_empty q) do
+    let (a, path_rev, sid) = Queue.pop q in
+    let plen = List.length path_rev in
+    let path = String.concat "" (List.rev_map (fun l -> l ^ "\n") path_rev) in
+    let ops = (Printf.sprintf "A alloc %d" sid, AAlloc (z_of_int sid)) :: ("A clear", AClear) :: ("A compact", ACompact)
+              :: (Printf.sprintf "A set %d %d" (plen mod (n + 1)) sid, ASet (n_of_int (plen mod (n + 1)), z_of_int sid))
+              :: List.concat (List.map (fun h ->
+                   [ (Printf.sprintf "A free %d" h, AFree (n_of_int h)); (Printf.sprintf "A free_d %d" h, AFreeD (n_of_int h));
+                     (Printf.sprintf "A free_nr %d" h, AFreeNR (n_of_int h)) ]) handles) in
+    List.iter (fun (line, op) ->
+      let (a', out) = astep Z0 a op in
+      if List.length a'.store <= n then begin
+        pr "H xa%d.%d arena cap=0\n%s%s\n%s" n !nh path line probes; incr nh;
+        (match out with
+         | OPanic -> ()
+         | _ ->
+           let id = ident a' in
+           if not (Hashtbl.mem seen id) then begin
+             Hashtbl.add seen id (); incr nstates;
+             if plen + 1 > !maxh then maxh := plen + 1;
+             Queue.add (a', line :: path_rev, sid + 1) q
+           end)
+      end;
+      if Buffer.length buf > 60000 then flush_buf ()) ops
+  done;
+  flush_buf ();
+  Printf.eprintf "EXPLORE cap=0 keys=%d states=%d transitions=%d longest_path=%d closed=true\n" n !nstates !nh !maxh
+
 let () =
+  if Array.length Sys.argv > 2 && Sys.argv.(1) = "--explore-arena" then (explore_arena (ios Sys.argv.(2)); exit 0);
   if Array.length Sys.argv > 4 && Sys.argv.(1) = "--explore" then (explore (ios Sys.argv.(2)) (ios Sys.argv.(3)) (ios Sys.argv.(4))
       (if Array.length Sys.argv > 5 then ios Sys.argv.(5) else 0) (if Array.length Sys.argv > 6 then Sys.argv.(6) else "-"); exit 0);
   if Array.length Sys.argv > 2 && Sys.argv.(1) = "--coq" then (coq_mode Sys.argv.(2); exit 0);
